@@ -105,7 +105,7 @@ func getKnownLedger() *ledger.Ledger {
 // formatKnown formats the base block on top of the known ledger's tip and confirms it there.
 var knownErr string
 
-func formatKnown(p base) (*pb.InternalBlock, bool) {
+func formatKnown(p base, confirm bool) (*pb.InternalBlock, bool) {
 	l := getKnownLedger()
 	knownSeq++
 	var qc *pb.QuorumCert
@@ -125,6 +125,9 @@ func formatKnown(p base) (*pb.InternalBlock, bool) {
 	b, err := l.FormatMinerBlock(txs, []byte(a.Address), a.Pri, 1700000000+int64(knownSeq), 3, 7, meta.TipBlockid, p.tb, big.NewInt(0), qc, failed, meta.TrunkHeight+1)
 	if err != nil {
 		return nil, false
+	}
+	if !confirm {
+		return b, true
 	}
 	if st := l.ConfirmBlock(proto.Clone(b).(*pb.InternalBlock), false); !st.Succ {
 		knownErr = fmt.Sprint(st.Error)
@@ -636,11 +639,31 @@ func mutate1(b *pb.InternalBlock, p base, a []string, arg func(int) int) string 
 		copy(b.MerkleTree[:cnt], nt[:cnt])
 		return "accept"
 	case "droptree":
+		// the ledger stores the carried tree with the header and lists the body of the stored block from its leaves
+		// (queryBlock): a block without it, or with other leaves, is not the block the proposer signed once stored
 		if len(b.MerkleTree) == 0 {
 			return ""
 		}
 		b.MerkleTree = nil
-		return "obs"
+	case "leafswap":
+		i, j := arg(1), arg(2)
+		if i >= len(b.Transactions) || j >= len(b.Transactions) || i == j || len(b.MerkleTree) < len(b.Transactions) {
+			return ""
+		}
+		b.MerkleTree[i], b.MerkleTree[j] = b.MerkleTree[j], b.MerkleTree[i]
+	case "leafflip":
+		i := arg(1)
+		if i >= len(b.Transactions) || len(b.MerkleTree) < len(b.Transactions) {
+			return ""
+		}
+		b.MerkleTree[i], _ = flipLast(b.MerkleTree[i])
+	case "leafdup":
+		// leaf i overwritten with leaf j: the stored body would list transaction j twice
+		i, j := arg(1), arg(2)
+		if i >= len(b.Transactions) || j >= len(b.Transactions) || i == j || len(b.MerkleTree) < len(b.Transactions) {
+			return ""
+		}
+		b.MerkleTree[i] = append([]byte{}, b.MerkleTree[j]...)
 	case "txdrop":
 		i := arg(1)
 		if i >= len(b.Transactions) {
@@ -749,12 +772,24 @@ func execVb(line string, oracle bool) string {
 	vl := getLedger()
 	if m["known"] == "1" && p.n >= 1 && p.ph == 1 && p.d == 0 {
 		// the honest block is confirmed first; the copy that is verified carries the same header
-		kb, ok := formatKnown(p)
+		kb, ok := formatKnown(p, true)
 		if !ok {
 			out.Violate(xvlib.Violation{Key: "formatted-block-not-confirmed", What: "a block formatted by FormatMinerBlock on the ledger's tip is refused by ConfirmBlock", Ops: []string{line}, Impl: []string{knownErr}})
 			return "format-error"
 		}
 		b, vl = kb, getKnownLedger()
+	}
+	stored := m["stored"] == "1" && p.n >= 1 && p.d == 0
+	var parent []byte
+	if stored {
+		// the block extends the tip of the known ledger; if the (mutated) copy passes VerifyBlock it is confirmed, as
+		// the node does with a synchronised block (miner.batchConfirmBlock), and read back from storage
+		kb, ok := formatKnown(p, false)
+		if !ok {
+			return "format-error"
+		}
+		b, vl = kb, getKnownLedger()
+		parent = vl.GetMeta().TipBlockid
 	}
 	orig := b
 	b = proto.Clone(b).(*pb.InternalBlock)
@@ -769,6 +804,9 @@ func execVb(line string, oracle bool) string {
 	res := "reject"
 	if ok {
 		res = "accept"
+	}
+	if stored && ok {
+		readBack(line, vl, parent, b, oracle)
 	}
 	if !oracle {
 		return res
@@ -797,6 +835,52 @@ func execVb(line string, oracle bool) string {
 		out.Count("noop-mutation:" + res)
 	}
 	return res
+}
+
+// readBack confirms a block that passed VerifyBlock and reads it back from storage the way state.Walk obtains the
+// blocks it plays (FindUndoAndTodoBlocks reads through queryBlock, not through the block cache).  The block the ledger
+// serves under that id must carry exactly the ordered transaction list that was verified.
+func readBack(line string, l *ledger.Ledger, parent []byte, sent *pb.InternalBlock, oracle bool) {
+	want := make([]string, len(sent.Transactions))
+	for i, t := range sent.Transactions {
+		want[i] = hx(t.Txid)
+	}
+	if st := l.ConfirmBlock(proto.Clone(sent).(*pb.InternalBlock), false); !st.Succ {
+		out.Count("stored:verified-but-not-confirmed")
+		return
+	}
+	got, problem := func() (got []string, problem string) {
+		defer func() {
+			if r := recover(); r != nil {
+				problem = fmt.Sprintf("panic: %v", r)
+			}
+		}()
+		_, todo, err := l.FindUndoAndTodoBlocks(parent, sent.Blockid)
+		if err != nil {
+			return nil, "error: " + err.Error()
+		}
+		if len(todo) != 1 {
+			return nil, fmt.Sprintf("%d blocks to play instead of 1", len(todo))
+		}
+		for _, t := range todo[0].Transactions {
+			got = append(got, hx(t.Txid))
+		}
+		return got, ""
+	}()
+	out.Count("stored:read-back")
+	if !oracle {
+		return
+	}
+	switch {
+	case problem != "":
+		out.Violate(xvlib.Violation{Key: "verified-block-unreadable",
+			What: "a block passes VerifyBlock and is confirmed, but the ledger cannot read it back from storage (" + problem + ")",
+			Ops:  []string{line}, Impl: []string{problem}})
+	case strings.Join(got, ",") != strings.Join(want, ","):
+		out.Violate(xvlib.Violation{Key: "verified-block-stored-with-other-body",
+			What: "a block passes VerifyBlock and is confirmed, but the block the ledger serves under its id (read from storage, as state.Walk does) carries another ordered transaction list than the one that was verified: its merkle root is not the root of its body",
+			Ops:  []string{line}, Impl: []string{"verified " + strings.Join(want, ","), "stored   " + strings.Join(got, ",")}})
+	}
 }
 
 // ---------------------------------------------------------------- exec / generate
@@ -875,6 +959,17 @@ func randBlock(r *xvlib.Rng) *pb.InternalBlock {
 	return b
 }
 
+// storedWorthwhile: mutations after which a block may still pass VerifyBlock (unmutated, fields outside the id, the
+// carried tree): those are confirmed and read back
+func storedWorthwhile(m string) bool {
+	for _, pre := range []string{"none", "inc:height", "flip:fkey0", "jshift", "fshift", "mtree", "droptree", "leafswap", "leafflip", "leafdup", "txcontent", "takeover"} {
+		if m == pre || strings.HasPrefix(m, pre+":") {
+			return true
+		}
+	}
+	return false
+}
+
 func leafCount(n int) int {
 	w := 1
 	for w < n {
@@ -894,6 +989,8 @@ func mutationsFor(p base, r *xvlib.Rng, all bool) []string {
 		ms = append(ms, h, h+"+reid")
 	}
 	ms = append(ms, "inc:height", "flip:fkey0", "jshift", "fshift", "mtree", "droptree", "takeover",
+		"leafswap:0:1", fmt.Sprintf("leafswap:0:%d", p.n-1), fmt.Sprintf("leafflip:%d", r.Intn(p.n)), fmt.Sprintf("leafflip:%d", p.n-1),
+		"leafdup:0:1", fmt.Sprintf("leafdup:%d:0", p.n-1),
 		"flip:sign", "clear:sign", "flip:blockid", "clear:blockid", "signother", "pkother", "pkother+signother", "pkother+reid+signother", "pkother+reid")
 	idx := func() int { return r.Intn(p.n) }
 	body := []string{}
@@ -996,6 +1093,10 @@ func genC08(tier string, rng *xvlib.Rng, run func(string, bool)) {
 				if p.d == 0 && (c == 0 || rng.Intn(3) == 0) {
 					// the same mutation of a copy of a block this ledger has already confirmed
 					run(l+" known=1", m != "none")
+				}
+				if p.d == 0 && storedWorthwhile(m) {
+					// the mutated block extends the ledger's tip: if it passes it is confirmed and read back from storage
+					run(l+" stored=1", true)
 				}
 				if nb < 2 && strings.HasPrefix(m, "txdup") {
 					out.Sample(map[string]string{"op": l, "impl": execC08(l, false)})
